@@ -74,7 +74,8 @@ def run_lattice(case) -> dict:
         for l1 in range(32):
             for l2 in range(32):
                 covering = (l1, l2) <= (l1p, l2p)
-                if not covering and (l1 * 32 + l2 + l1p) % 29:
+                succ = (l1, l2) in ((l1p, l2p + 1), (l1p + 1, 0), (l1p + 1, l2p), (l1p + 1, 31))  # the positions right after the seed: always asked
+                if not covering and not succ and (l1 * 32 + l2 + l1p) % 29:
                     continue  # sample of the non-covering side (each must raise, cheaply)
                 kid = KeyIdentifier(version=1, flags=0, l0=L0, l1=l1, l2=l2, root_key_identifier=rk.root_key_id, key_info=nonce,
                                     domain_name="domain.test", forest_name="domain.test")
